@@ -83,7 +83,7 @@ func (c *FnCtx) fieldGuard(a *Addr) *guardRef {
 	if mi < 0 {
 		return nil
 	}
-	return &guardRef{mutexID: SubRef(a.Ref, mi), field: a.ST.Field(a.Idx).Name(), rw: rw}
+	return &guardRef{mutexID: SubRef(a.Ref, mi), field: a.ST.Field(a.Idx).Name(), rw: rw, owner: a.Ref, ownerT: a.ET, fieldIx: a.Idx}
 }
 
 func (fr *Frame) heldTerms(st *State, g *guardRef) (w *Term, r *Term) {
@@ -100,6 +100,11 @@ func (fr *Frame) heldTerms(st *State, g *guardRef) (w *Term, r *Term) {
 
 // guardCheck emits the obligation that the protecting lock is held for this access.
 func (fr *Frame) guardCheck(st *State, in ssa.Instruction, g *guardRef, write bool, what string) {
+	fr.guardCheckC(st, in, g, write, what, nil)
+}
+
+// guardCheckC: content is the map / backing-array reference being accessed (nil for the field itself).
+func (fr *Frame) guardCheckC(st *State, in ssa.Instruction, g *guardRef, write bool, what string, content *Term) {
 	if g == nil || fr.c.dry > 0 {
 		return
 	}
@@ -112,6 +117,28 @@ func (fr *Frame) guardCheck(st *State, in ssa.Instruction, g *guardRef, write bo
 	if write {
 		goal = w
 		mode = "write"
+	}
+	if content != nil && g.owner != nil {
+		// contents (map entries, slice elements) are protected only while the protected field still
+		// refers to them: a table that has been detached (field replaced before the release) is
+		// private to this thread
+		// the field's value when this thread last released the lock (nobody else can re-attach a
+		// detached table: no other reference to it exists); before any release: the current value
+		fst := st
+		if sn := st.snaps["unlock"]; sn != nil {
+			fst = sn
+		}
+		cur := Heap{st: fst}.loadField(g.owner, g.ownerT, g.fieldIx)
+		var curRef *Term
+		switch cur.K {
+		case VSlice:
+			curRef = cur.Ref
+		case VScalar:
+			curRef = cur.X
+		}
+		if curRef != nil {
+			goal = Or(goal, Neq(content, curRef))
+		}
 	}
 	name := fmt.Sprintf("guard:%s@%s#%d", g.field, what, fr.c.guardSeq(in, g.field+what))
 	fr.c.oblige(fr, st, "guard", name, goal, nil, fmt.Sprintf("%s of lock-protected %s requires the lock (%s mode): %s", mode, g.field, mode, in.String()), true)
